@@ -8,7 +8,7 @@ use crate::p2::*;
 use crate::report::*;
 use crate::universe::*;
 use crate::val::*;
-use serde_json::json;
+use serde_json::{json, Value};
 use std::collections::{BTreeMap, BTreeSet};
 
 /// give every leaf clause a unique custom message m<k>
@@ -113,9 +113,12 @@ pub fn extra_pool() -> Vec<File> {
     // `!empty` on an empty filter selection (NoValueForEmptyCheck) and some-clauses
     out.push(file1(rule("r0", vec![vec![lp[5].clone()], vec![lp[4].clone()]])));
     // query right-hand sides, resolved and unresolved on either side
-    for (lq, rq) in [(vec![key("a")], vec![key("b")]), (vec![key("a"), Part::All], vec![key("b")]), (vec![key("a")], vec![key("nosuch")]), (vec![key("nosuch")], vec![key("a")]), (vec![key("a"), key("b")], vec![key("b")])] {
-        for (op, opneg) in [(BinOp::Eq, false), (BinOp::Eq, true), (BinOp::In, false), (BinOp::Le, false)] {
+    for (lq, rq) in [(vec![key("a"), Part::All], vec![key("b"), Part::All]), (vec![key("a")], vec![key("b")]), (vec![key("a"), Part::All], vec![key("b")]), (vec![key("a")], vec![key("nosuch")]), (vec![key("nosuch")], vec![key("a")]), (vec![key("a"), key("b")], vec![key("b")])] {
+        for (op, opneg) in [(BinOp::Eq, false), (BinOp::Eq, true), (BinOp::In, false), (BinOp::In, true), (BinOp::Le, false)] {
             let c = Clause::Binary { not: false, some: false, q: lq.clone(), op, opneg, rhs: Arg::Q(false, rq.clone()), msg: None };
+            // the same with the right-hand side held by a variable
+            let cv = Clause::Binary { not: false, some: false, q: lq.clone(), op, opneg, rhs: Arg::Q(false, vec![Part::Var("rv".into())]), msg: None };
+            out.push(File { lets: vec![Let { name: "rv".into(), val: Arg::Q(false, rq.clone()) }], rules: vec![rule("r0", vec![vec![cv]])], default: vec![] });
             out.push(file1(rule("r0", vec![vec![c.clone()]])));
             out.push(File { lets: vec![], rules: vec![rule("r0", vec![vec![c.clone(), lp[0].clone()]]), rule("r1", vec![vec![lp[1].clone()], vec![c]])], default: vec![] });
         }
@@ -295,6 +298,64 @@ fn check_run_layout(files: &[File], doc_json: &str, acc: &mut Acc, class: &str, 
     let _unused = |sig: &str, what: String| {
         acc.violate(&format!("{}:{}", sig, class), format!("{} | rules {:?} data {}", what, texts, doc_json), replay(sig, what.clone()));
     };
+    // (0) every listed check, re-evaluated from the values it names, is one that failed: a value reported as "not in" a
+    //     list is not a member of it (and the other way round for `not in`), two integers reported as failing an ordering or
+    //     equality comparison do fail it
+    if let Ok(raw) = serde_json::from_str::<Value>(&o.out) {
+        fn walk(v: &Value, out: &mut Vec<String>) {
+            match v {
+                Value::Object(m) => {
+                    if let Some(c) = m.get("InResolved") {
+                        let from = &c["from"]["value"];
+                        let neg = c["comparison"][1].as_bool().unwrap_or(false);
+                        let mut members: Vec<&Value> = vec![];
+                        for t in c["to"].as_array().map(|a| a.as_slice()).unwrap_or(&[]) {
+                            match &t["value"] {
+                                Value::Array(a) if !from.is_array() => members.extend(a.iter()),
+                                other => members.push(other),
+                            }
+                        }
+                        let comparable = !from.is_null() && !from.is_array() && !from.is_object() && members.iter().all(|x| !x.is_null() && !x.is_object() && !(x.is_string() && from.is_string()));
+                        // (strings may be matched as regular expressions by the tool: left to the message-level oracle)
+                        if comparable && c["comparison"][0] == "In" {
+                            let is_member = members.iter().any(|x| *x == from);
+                            if is_member != neg {
+                                out.push(format!("a check lists {} as {} {:?}", from, if neg { "in (for `not in`)" } else { "not in" }, members));
+                            }
+                        }
+                    }
+                    if let Some(c) = m.get("Resolved") {
+                        if let (Some(a), Some(b), Some(op)) = (c["from"]["value"].as_i64(), c["to"]["value"].as_i64(), c["comparison"][0].as_str()) {
+                            let neg = c["comparison"][1].as_bool().unwrap_or(false);
+                            let holds = match op {
+                                "Eq" => Some(a == b),
+                                "Lt" => Some(a < b),
+                                "Le" => Some(a <= b),
+                                "Gt" => Some(a > b),
+                                "Ge" => Some(a >= b),
+                                _ => None,
+                            };
+                            if let Some(h) = holds {
+                                if h != neg {
+                                    out.push(format!("a check lists {} {}{} {} as failed", a, if neg { "not " } else { "" }, op, b));
+                                }
+                            }
+                        }
+                    }
+                    for x in m.values() {
+                        walk(x, out);
+                    }
+                }
+                Value::Array(a) => a.iter().for_each(|x| walk(x, out)),
+                _ => {}
+            }
+        }
+        let mut wrong = vec![];
+        walk(&raw, &mut wrong);
+        for w in wrong {
+            bad("listed-check-did-not-fail", w);
+        }
+    }
     // (1) partition: every evaluated rule name in exactly one class, the class of its status
     let mut listed: Vec<(String, St)> = vec![];
     listed.extend(r.compliant.iter().map(|n| (bare(n), St::Pass)));
@@ -471,7 +532,12 @@ pub fn run(tier: &str) -> i32 {
     progs.extend(same_name_family(false).into_iter().step_by(41).filter(|_| false)); // same-named rules are outside C09 (distinct names)
     let progs: Vec<File> = progs.iter().map(|f| tag_messages(f, "")).collect();
     let docs = docs_quick();
-    let djs: Vec<String> = docs.iter().map(|d| d.json()).collect();
+    let mut djs: Vec<String> = docs.iter().map(|d| d.json()).collect();
+    // several values on both sides with a partial overlap (the checks listed for a failed query-to-query comparison are
+    // those of the values that fail it)
+    djs.push(r#"{"a":[1,2,3],"b":[1,3]}"#.to_string());
+    djs.push(r#"{"a":[2,1],"b":[1,5,2]}"#.to_string());
+    djs.push(r#"{"a":[1,2,7],"b":2}"#.to_string());
     let n = progs.len() * djs.len();
     let res = crate::par::run(n, rep.seed as u64, crate::par::deadline_secs(if thorough { 3000 } else { 40 }), Acc::new, |k, acc| {
         let (pi, di) = (k / djs.len(), k % djs.len());
